@@ -87,6 +87,13 @@ func (c *Cluster) storeHook(path, kind, phase string) error {
 	if c.storePointHook != nil {
 		c.storePointHook(n, kind, phase)
 	}
+	if phase == "pre" && c.cfg.PStoreErr > 0 && !c.fairMode && c.inner.Bool(c.cfg.PStoreErr) {
+		// transient write error (full disk, I/O error): this commit fails, the
+		// node keeps running
+		n.storeErrSeen = true
+		c.stats.fault("store-write-error")
+		return fmt.Errorf("injected write error (%s)", kind)
+	}
 	if phase == "post" {
 		if kind == "event" {
 			n.eventRun++
